@@ -62,12 +62,13 @@ ZeroHash      == <<"H", 0, 0, "zero", NoDetails, <<>>>>     \* 64 zero bytes: "n
 Sign(h)       == <<"SIG", h>>
 VerifySig(h, s) == s = Sign(h)
 Merkle(buf)   == IF buf = <<>> THEN <<"MR", 0, ZeroHash>> ELSE <<"MR", Len(buf), buf[Len(buf)]>>
-\* Signatures over a Merkle root name the root by (length, content of its last hash) instead of
-\* nesting it: a root with the same last content but another history needs re-hashed entries,
-\* whose entry signatures fail before any grounding is reached.  Keeps values from doubling.
+\* The Ed25519 signature over a Merkle root names the root by (length, content of its last hash)
+\* instead of nesting it: a root with the same last content but another history needs re-hashed
+\* entries, and whoever can re-sign those (Ed25519 key) can re-sign the root as well.  The ML-DSA
+\* signature nests the root: it is what still binds the history when the Ed25519 key is lost.
 RootName(r)   == <<r[2], r[3][2], r[3][3], r[3][4], r[3][5]>>
 SignRoot(r)   == <<"SIGED", RootName(r)>>
-SignRootMl(r) == <<"SIGML", RootName(r)>>
+SignRootMl(r) == <<"SIGML", r>>
 \* a different, equally shaped hash value (what an attacker can write instead)
 AlterHash(h)  == <<"H", h[2], h[3] + 100000, h[4], h[5], h[6]>>
 
